@@ -3,12 +3,28 @@ From Coq Require Import List NArith ZArith Bool Arith Lia.
 From Verif Require Import c01vm2.Syntax c01vm2.Code c01vm2.VM c01vm2.Den c01vm2.Compile c01vm2.Mach c01vm2.Gen.
 Import ListNotations.
 
+(* the lower bound claimed when the denotation runs out of fuel fu (Gen.Tfuel): fu frame pushes -- except with
+   optimizeTailRec, where a tail call turned into a jump pushes no frame and nothing is claimed *)
+Definition lbf (tco : bool) (fu : nat) : nat := match fu with 0 => 0 | S m => if tco then 0 else S m end.
+Lemma lbf_S : forall tco m, lbf tco (S m) <= S (lbf tco m).
+Proof. intros [|] [|m]; simpl; lia. Qed.
+Lemma lbf_le : forall tco m, lbf tco m <= m.
+Proof. intros [|] [|m]; simpl; lia. Qed.
+Lemma lbf_false : forall m, lbf false m = m.
+Proof. intros [|m]; reflexivity. Qed.
+Lemma lbf_true : forall m, lbf true m = 0.
+Proof. intros [|m]; reflexivity. Qed.
+(* no fork on the stack was created after the frame stamped [stamp] was pushed (popscope's free test) *)
+Definition unpin (fk : list fork) (stamp : nat) : bool := match fk with [] => true | f :: _ => f_ctr f <=? stamp end.
+
 (* ---- environments ---- *)
 Definition top_frame (sc : list frame) (cur base : nat) : Prop :=
   exists rpc stamp save outer r, sc = Frame cur base rpc stamp save outer :: r.
 
 Section E.
 Variable code : list instr.
+Variable tco : bool.
+Notation comp q ce := (compg tco q ce None).
 
 (* a value variable lives at an address below [lim] and holds the value of the environment *)
 Definition valOK (sc : list frame) (vs : list sv) (lim : nat) (y : var) (w : jv) : Prop :=
@@ -17,10 +33,10 @@ Definition valOK (sc : list frame) (vs : list sv) (lim : nat) (y : var) (w : jv)
    opscope, followed by the parameter prelude, the code of its body compiled in the environment that starts at the
    function's own entry (with no label) extended by the parameters, and opret; the slots visible in the body
    belong to scopes older than the function's *)
-Definition funOK (p : nat) (ps : list param) (body : query) (cel : list (BinNums.N * cbind)) : Prop :=
+Definition funOK (p : nat) (ps : list param) (body : query) (cel : list (BinNums.N * cbind)) (tlb : tailpos) : Prop :=
   exists idf nvb cb s0 s1,
     nth_error code p = Some (Iscope idf nvb (length ps)) /\
-    (forall G, comp body {| ce_env := param_env idf ps ++ cel; ce_lbls := []; ce_ghost := G |} idf
+    (forall G, compg tco body {| ce_env := param_env idf ps ++ cel; ce_lbls := []; ce_ghost := G |} tlb idf
                  (p + 1 + length (prelude idf ps)) (param_slots ps) s0 = Some (cb, nvb, s1)) /\
     (forall i x, nth_error (prelude idf ps ++ cb ++ [Iret]) i = Some x -> nth_error code (p + 1 + i) = Some x) /\
     ce_lt {| ce_env := cel; ce_lbls := []; ce_ghost := fun _ => False |} idf = true.
@@ -31,11 +47,11 @@ Inductive envOKl (G : nat -> Prop) (sc : list frame) (vs : list sv) (lim : nat) 
 | EO_nil : envOKl G sc vs lim [] []
 | EO_var : forall x y w cr rr, valOK sc vs lim y w -> envOKl G sc vs lim cr rr ->
     envOKl G sc vs lim ((x, CV y) :: cr) ((x, BV w) :: rr)
-| EO_fun : forall f p ps body cr rr, funOK p ps body ((f, CF p (length ps)) :: cr) -> envOKl G sc vs lim cr rr ->
+| EO_fun : forall f p ps body cr rr, funOK p ps body ((f, CF p (length ps)) :: cr) (tl_body tco p ps body) -> envOKl G sc vs lim cr rr ->
     envOKl G sc vs lim ((f, CF p (length ps)) :: cr) ((f, BF ps body) :: rr)
 | EO_par : forall g y a rho_a cr rr addr p idx cel_a cur_a base_a lim_a Ga,
     index_of sc y = Some addr -> addr < lim -> nth_error vs addr = Some (SPc p idx) ->
-    funOK p [] a cel_a -> top_frame idx cur_a base_a -> lim_a <= lim ->
+    funOK p [] a cel_a None -> top_frame idx cur_a base_a -> lim_a <= lim ->
     envOKl Ga idx vs lim_a cel_a rho_a ->
     (forall i, kept idx {| ce_env := cel_a; ce_lbls := []; ce_ghost := Ga |} i -> G i /\ i < lim_a) ->
     envOKl G sc vs lim cr rr ->
@@ -60,7 +76,7 @@ Proof. intros sc ce rho vs n0 lim x y [H _]. eapply envOKl_var; eauto. Qed.
 (* a visible function f/argc: its body, its own environment (a suffix of both lists) *)
 Lemma envOKl_fun : forall G sc vs lim cel rho f argc p n, envOKl G sc vs lim cel rho -> lookup_cf f argc cel = Some (CF p n) ->
   exists ps body cel' rho' pre, n = argc /\ length ps = argc /\ lookup_f f argc rho = Some (BF ps body, rho') /\
-     funOK p ps body cel' /\ envOKl G sc vs lim cel' rho' /\ cel = pre ++ cel'.
+     funOK p ps body cel' (tl_body tco p ps body) /\ envOKl G sc vs lim cel' rho' /\ cel = pre ++ cel'.
 Proof.
   intros G sc vs lim cel rho f argc p n H. induction H; intros Hl; simpl in *; try discriminate.
   - destruct (IHenvOKl Hl) as (ps & body & cel' & rho' & pre & H1 & H2 & H3 & H4 & H5 & ->).
@@ -80,7 +96,7 @@ Lemma envOKl_par : forall G sc vs lim cel rho f y, envOKl G sc vs lim cel rho ->
   exists a rho_a rho' addr p idx cel_a cur_a base_a lim_a Ga,
     lookup_f f 0 rho = Some (BP a rho_a, rho') /\
     index_of sc y = Some addr /\ addr < lim /\ nth_error vs addr = Some (SPc p idx) /\
-    funOK p [] a cel_a /\ top_frame idx cur_a base_a /\ lim_a <= lim /\ envOKl Ga idx vs lim_a cel_a rho_a /\
+    funOK p [] a cel_a None /\ top_frame idx cur_a base_a /\ lim_a <= lim /\ envOKl Ga idx vs lim_a cel_a rho_a /\
     (forall i, kept idx {| ce_env := cel_a; ce_lbls := []; ce_ghost := Ga |} i -> G i /\ i < lim_a).
 Proof.
   intros G sc vs lim cel rho f y H. induction H; intros Hl; simpl in *; try discriminate.
@@ -161,6 +177,25 @@ Proof.
   - constructor; auto.
   - apply (EO_par G sc vs lim' g y a rho_a cr rr addr p idx cel_a cur_a base_a lim_a Ga); auto; lia.
 Qed.
+(* lowering the limit: all the slots (and the addresses closure environments depend on) are below lim' *)
+Lemma envOKl_lower : forall G sc vs lim cel rho, envOKl G sc vs lim cel rho -> forall lim',
+  (forall x y i, In (x, CV y) cel \/ In (x, CP y) cel -> index_of sc y = Some i -> i < lim') -> (forall i, G i -> i < lim') ->
+  envOKl G sc vs lim' cel rho.
+Proof.
+  intros G sc vs lim cel rho H. induction H; intros lim' Hs Hg.
+  - constructor.
+  - destruct H as (a & Ha & Hlt & Hn). constructor.
+    + exists a. split; [exact Ha|]. split; [|exact Hn]. apply (Hs x y a); [left; left; reflexivity|exact Ha].
+    + apply IHenvOKl; auto. intros x0 y0 i [Hin|Hin] Hi; apply (Hs x0 y0 i); auto; [left|right]; right; exact Hin.
+  - constructor; auto. apply IHenvOKl; auto. intros x0 y0 i [Hin|Hin] Hi; apply (Hs x0 y0 i); auto; [left|right]; right; exact Hin.
+  - apply (EO_par G sc vs lim' g y a rho_a cr rr addr p idx cel_a cur_a base_a lim' Ga); auto.
+    + apply (Hs g y addr); [right; left; reflexivity|exact H].
+    + apply IHenvOKl1.
+      * intros x0 y0 i Hin Hi. apply Hg. apply H6. left. exists x0, y0. auto.
+      * intros i Hi. apply Hg. apply H6. right. right. exact Hi.
+    + intros i Hi. split; [apply H6; exact Hi|]. apply Hg. apply H6. exact Hi.
+    + apply IHenvOKl2; auto. intros x0 y0 i [Hin|Hin] Hi; apply (Hs x0 y0 i); auto; [left|right]; right; exact Hin.
+Qed.
 Lemma envOK_lim : forall sc ce rho vs n0 lim lim', envOK sc ce rho vs n0 lim -> lim <= lim' -> envOK sc ce rho vs n0 lim'.
 Proof.
   intros sc ce rho vs n0 lim lim' (Hv & Hl & Hg) H. split; [eapply envOKl_lim; eauto|]. split.
@@ -195,7 +230,7 @@ Qed.
 
 (* a function definition: the new entry describes the code just emitted *)
 Lemma envOK_add_fun : forall sc ce rho vs n0 lim f p ps body,
-  envOK sc ce rho vs n0 lim -> funOK p ps body ((f, CF p (length ps)) :: ce_env ce) ->
+  envOK sc ce rho vs n0 lim -> funOK p ps body ((f, CF p (length ps)) :: ce_env ce) (tl_body tco p ps body) ->
   envOK sc (add_fun ce f p (length ps)) ((f, BF ps body) :: rho) vs n0 lim.
 Proof. intros sc ce rho vs n0 lim f p ps body (Hv & Hl & Hg) Hf. split; [|split]; simpl; auto. constructor; auto. Qed.
 
@@ -221,34 +256,37 @@ Proof.
   - right; right; auto.
 Qed.
 End E.
-Arguments envOKl_var {code}.
-Arguments envOK_var {code}.
-Arguments envOKl_fun {code}.
-Arguments envOKl_par {code}.
-Arguments envOKl_kept_lt {code}.
-Arguments kept_lt {code}.
-Arguments envOKl_same {code}.
-Arguments envOK_same {code}.
-Arguments envOK_chg {code}.
-Arguments envOK_keep {code}.
-Arguments envOKl_lim {code}.
-Arguments envOK_lim {code}.
-Arguments envOK_n0 {code}.
-Arguments envOK_lblOK {code}.
-Arguments envOK_add_var {code}.
-Arguments envOK_add_lbl {code}.
-Arguments envOK_add_fun {code}.
+Arguments envOKl_var {code tco}.
+Arguments envOK_var {code tco}.
+Arguments envOKl_fun {code tco}.
+Arguments envOKl_par {code tco}.
+Arguments envOKl_kept_lt {code tco}.
+Arguments kept_lt {code tco}.
+Arguments envOKl_same {code tco}.
+Arguments envOK_same {code tco}.
+Arguments envOK_chg {code tco}.
+Arguments envOK_keep {code tco}.
+Arguments envOKl_lim {code tco}.
+Arguments envOKl_lower {code tco}.
+Arguments envOK_lim {code tco}.
+Arguments envOK_n0 {code tco}.
+Arguments envOK_lblOK {code tco}.
+Arguments envOK_add_var {code tco}.
+Arguments envOK_add_lbl {code tco}.
+Arguments envOK_add_fun {code tco}.
 
 Section L.
 Variable nt : natives.
 Variable code : list instr.
+Variable tco : bool.
+Notation comp q ce := (compg tco q ce None).
 
 Notation steps := (steps nt code).
 Notation G2 := (G2 nt code).
 Notation G c ws T := (Gen.G2 nt code c ws T T).
 Notation Tend := (Tend nt code).
 Notation at_ := (at_ code).
-Notation envOK := (envOK code).
+Notation envOK := (envOK code tco).
 
 Definition code_at (pc : nat) (cq : list instr) : Prop :=
   forall i x, nth_error cq i = Some x -> nth_error code (pc + i) = Some x.
@@ -325,9 +363,9 @@ Qed.
 
 Lemma envOKl_pushed : forall G sc id sc' vs vs' lim cel rho, pushed sc id sc' ->
   (forall a, a < lim -> nth_error vs' a = nth_error vs a) ->
-  envOKl code G sc vs lim cel rho ->
+  envOKl code tco G sc vs lim cel rho ->
   (forall x y, In (x, CV y) cel \/ In (x, CP y) cel -> fst y <> id) ->
-  envOKl code G sc' vs' lim cel rho.
+  envOKl code tco G sc' vs' lim cel rho.
 Proof.
   intros G sc id sc' vs vs' lim cel rho Hp Hn H. induction H; intros Hne.
   - constructor.
@@ -335,7 +373,7 @@ Proof.
     + exists a. rewrite (index_of_pushed _ _ _ _ Hp (Hne x y (or_introl (or_introl eq_refl)))). rewrite Hn by auto. auto.
     + apply IHenvOKl; auto. intros x0 y0 [Hin|Hin]; apply (Hne x0 y0); [left|right]; right; auto.
   - constructor; auto. apply IHenvOKl; auto. intros x0 y0 [Hin|Hin]; apply (Hne x0 y0); [left|right]; right; auto.
-  - apply (EO_par code G sc' vs' lim g y a rho_a cr rr addr p idx cel_a cur_a base_a lim_a Ga); auto.
+  - apply (EO_par code tco G sc' vs' lim g y a rho_a cr rr addr p idx cel_a cur_a base_a lim_a Ga); auto.
     + rewrite (index_of_pushed _ _ _ _ Hp (Hne g y (or_intror (or_introl eq_refl)))). auto.
     + rewrite Hn by auto. auto.
     + eapply envOKl_same; [exact H5| |].
@@ -376,7 +414,34 @@ Definition Impl (fu : nat) (q : query) : Prop :=
     (forall i, base + nv <= i < base + nv' -> K i) -> (forall i, kept sc ce i -> K i) -> (forall i, K0 i -> K i) ->
     let c := ctx_of sc (pc + length cq) st fk (base + nv) (base + nv') o ko K K0 ce n0 (ctr g) in
     stable c P -> P vs n g ->
-    G c (fst (den1 nt (call_of nt fu) q rho v)) (Tend fu c (snd (den1 nt (call_of nt fu) q rho v)) P) (N sc pc (SV v :: st) fk vs n o g).
+    G c (fst (den1 nt (call_of nt fu) q rho v)) (Tend (lbf tco fu) c (snd (den1 nt (call_of nt fu) q rho v)) P) (N sc pc (SV v :: st) fk vs n o g).
+
+(* the statement for a query in tail position of a parameterless function (optimizeTailRec on): F1 = the frame on
+   top is an activation of the function whose opscope is at pe; the code after the query leads to F1's opret; cx
+   describes F1's caller.  The outputs are delivered to the caller, whether the query ends in an ordinary way (through
+   opret) or by a tail call (opcallrec / jump), which replaces F1 *)
+Definition ImplT (fu : nat) (q : query) : Prop :=
+  tco = true ->
+  forall scR, scR <> [] -> forall idf oF rpc stampF outerF pe nvF cj,
+  let sc1 := Frame idf oF rpc stampF scR outerF :: scR in
+  at_ pe (Iscope idf nvF 0) -> (cj = true -> nvF = 0) ->
+  forall ce pc nv sn cq nv' sn', compg tco q ce (Some (pe, Some cj)) idf pc nv sn = Some (cq, nv', sn') -> code_at pc cq ->
+  ce_lbls ce = [] -> nv' <= nvF ->
+  forall pr, at_ pr Iret ->
+  forall cx, (forall w f vs n o g, steps (N sc1 (pc + length cq) (SV w :: g_st cx) f vs n o g) (N sc1 pr (SV w :: g_st cx) f vs n o g)) ->
+  forall rho v vs n o g (P : list sv -> nat -> gx -> Prop),
+    g_sc cx = scR -> g_pc cx = S rpc -> (forall i, kept scR (g_ce cx) i -> i < oF) ->
+    envOK sc1 ce rho vs (g_n0 cx) (oF + nv) -> g_n0 cx <= n -> oF + nvF <= o -> o <= length vs ->
+    g_ctr cx <= ctr g -> stampF < ctr g ->
+    g_off cx <= o -> g_koff cx <= oF ->
+    (forall i, oF + nv <= i < oF + nvF \/ o <= i -> g_own cx i) ->
+    (unpin (g_base cx) stampF = true -> g_off cx <= oF /\ forall i, oF <= i -> g_own cx i) ->
+    (forall x y i, In (x, CV y) (ce_env ce) \/ In (x, CP y) (ce_env ce) -> index_of sc1 y = Some i -> fst y = idf \/ (g_keep cx i /\ i < oF)) ->
+    (forall i, ce_ghost ce i -> g_keep cx i /\ i < oF) ->
+    (forall i, g_keep0 cx i -> g_keep cx i) ->
+    stable cx P -> P vs n g ->
+    G cx (fst (den1 nt (call_of nt fu) q rho v)) (Tend (lbf tco fu) cx (snd (den1 nt (call_of nt fu) q rho v)) P)
+      (N sc1 pc (SV v :: g_st cx) (g_base cx) vs n o g).
 
 (* one output, no new fork *)
 Lemma G_single : forall lb c w s vs3 n3 o3 g3 (P : list sv -> nat -> gx -> Prop),
@@ -510,8 +575,8 @@ End QInd.
 
 Ltac dcomp :=
   repeat match goal with
-  | H : match comp ?q ?ce ?cur ?pc ?nv ?sn with _ => _ end = Some _ |- _ =>
-      let E := fresh "Ec" in destruct (comp q ce cur pc nv sn) as [[[? ?] ?]|] eqn:E; [|discriminate H]
+  | H : match compg ?t ?q ?ce ?tp ?cur ?pc ?nv ?sn with _ => _ end = Some _ |- _ =>
+      let E := fresh "Ec" in destruct (compg t q ce tp cur pc nv sn) as [[[? ?] ?]|] eqn:E; [|discriminate H]
   | H : match lookup ?x ?l with _ => _ end = Some _ |- _ =>
       let E := fresh "El" in destruct (lookup x l) eqn:E; [|discriminate H]
   | H : match lookup_cv ?x ?l with _ => _ end = Some _ |- _ =>
@@ -534,12 +599,15 @@ Proof.
     inversion HF; subst. apply IH in Er; auto. apply H2 in Ea. lia.
 Qed.
 
-Lemma comp_mono : forall q ce cur pc nv sn cq nv' sn', comp q ce cur pc nv sn = Some (cq, nv', sn') -> nv <= nv' /\ sn <= sn'.
+Section CF.
+Variable tco : bool.
+
+Lemma comp_mono : forall q ce tp cur pc nv sn cq nv' sn', compg tco q ce tp cur pc nv sn = Some (cq, nv', sn') -> nv <= nv' /\ sn <= sn'.
 Proof.
-  qind q; intros ce cur pc nv sn cq nv' sn' Hc; simpl in Hc; dcomp;
+  qind q; intros ce tp cur pc nv sn cq nv' sn' Hc; simpl in Hc; dcomp;
     repeat match goal with
-    | IH : forall ce cur pc nv sn cq nv' sn', comp ?q ce cur pc nv sn = Some (cq, nv', sn') -> _,
-      E : comp ?q _ _ _ _ _ = Some _ |- _ => apply IH in E
+    | IH : forall ce tp cur pc nv sn cq nv' sn', compg tco ?q ce tp cur pc nv sn = Some (cq, nv', sn') -> _,
+      E : compg tco ?q _ _ _ _ _ _ = Some _ |- _ => apply IH in E
     end;
     try (inversion Hc; subst; lia).
   - (* if *) destruct (is_const1 l0), (is_const1 l1); inversion Hc; subst; lia.
@@ -549,15 +617,15 @@ Proof.
   - (* foreach *) destruct e as [e|]; simpl in *; dcomp; inversion Hc; subst; clear Hc.
     + apply IHe in Ec2. lia. + lia.
   - (* binop *) destruct (Nat.ltb cur sn && ce_lt ce sn); [|discriminate].
-    match type of Hc with context [comp b ce ?c ?p ?n ?s] =>
-      destruct (comp b ce c p n s) as [[[cb nb] s1]|] eqn:Eb; [|discriminate] end. cbv iota beta in Hc.
-    match type of Hc with context [comp a ce ?c ?p ?n ?s] =>
-      destruct (comp a ce c p n s) as [[[ca na] s2]|] eqn:Ea; [|discriminate] end. cbv iota beta in Hc.
+    match type of Hc with context [compg tco b ce ?t ?c ?p ?n ?s] =>
+      destruct (compg tco b ce t c p n s) as [[[cb nb] s1]|] eqn:Eb; [|discriminate] end. cbv iota beta in Hc.
+    match type of Hc with context [compg tco a ce ?t ?c ?p ?n ?s] =>
+      destruct (compg tco a ce t c p n s) as [[[ca na] s2]|] eqn:Ea; [|discriminate] end. cbv iota beta in Hc.
     inversion Hc; subst. apply IHb in Eb. apply IHa in Ea. lia.
   - (* def *) destruct (Nat.ltb cur sn && ce_lt ce sn); [|discriminate].
     dcomp. inversion Hc; subst. apply IHbody in Ec. apply IHrest in Ec0. lia.
   - (* callf *) destruct (lookup_cf f (length args) (ce_env ce)) as [[y|p n|y]|]; try discriminate.
-    + destruct args as [|a0 args']; [inversion Hc; subst; lia|].
+    + destruct args as [|a0 args']; [destruct (tail_call tp p); [inversion Hc; subst; lia|discriminate]|].
       destruct (Nat.ltb cur sn && ce_lt ce sn); [|discriminate].
       match type of Hc with context [comp_args ?C ?l ?p ?s] => destruct (comp_args C l p s) as [[[cas p'] s2]|] eqn:Ea; [|discriminate] end.
       inversion Hc; subst. split; [lia|].
@@ -576,12 +644,12 @@ Qed.
 
 Ltac cg1 ce ce' :=
   match goal with
-  | IH : (forall c1 c2 : cenv, ce_env c1 = ce_env c2 -> ce_lbls c1 = ce_lbls c2 -> forall cur pc nv sn, comp ?s c1 cur pc nv sn = comp ?s c2 cur pc nv sn)
-    |- context [comp ?s ?c ?a1 ?a2 ?a3 ?a4] =>
+  | IH : (forall c1 c2 : cenv, ce_env c1 = ce_env c2 -> ce_lbls c1 = ce_lbls c2 -> forall tp cur pc nv sn, compg tco ?s c1 tp cur pc nv sn = compg tco ?s c2 tp cur pc nv sn)
+    |- context [compg tco ?s ?c ?t ?a1 ?a2 ?a3 ?a4] =>
       lazymatch c with context [ce'] => fail | context [ce] => idtac end;
       let f := (eval pattern ce in c) in
       match f with ?F _ => let c' := (eval cbv beta in (F ce')) in
-         rewrite (IH c c' ltac:(simpl; congruence) ltac:(simpl; congruence) a1 a2 a3 a4) end
+         rewrite (IH c c' ltac:(simpl; congruence) ltac:(simpl; congruence) t a1 a2 a3 a4) end
   end.
 
 Ltac cg ce ce' :=
@@ -590,13 +658,13 @@ Ltac cg ce ce' :=
     | cg1 ce ce'
     | match goal with
       | |- (if ?g then _ else _) = (if ?g then _ else _) => destruct g; [|reflexivity]
-      | |- context [comp ?s ?c ?a1 ?a2 ?a3 ?a4] => destruct (comp s c a1 a2 a3 a4) as [[[? ?] ?]|]; cbv iota beta
+      | |- context [compg tco ?s ?c ?t ?a1 ?a2 ?a3 ?a4] => destruct (compg tco s c t a1 a2 a3 a4) as [[[? ?] ?]|]; cbv iota beta
       end ].
 
 Lemma comp_ghost : forall q ce ce', ce_env ce = ce_env ce' -> ce_lbls ce = ce_lbls ce' ->
-  forall cur pc nv sn, comp q ce cur pc nv sn = comp q ce' cur pc nv sn.
+  forall tp cur pc nv sn, compg tco q ce tp cur pc nv sn = compg tco q ce' tp cur pc nv sn.
 Proof.
-  qind q; intros ce ce' He Hl cur pc nv sn; cbn -[Nat.add Nat.ltb Nat.eqb ce_lt prelude param_env param_slots comp_args];
+  qind q; intros ce ce' He Hl tp cur pc nv sn; cbn -[Nat.add Nat.ltb Nat.eqb ce_lt prelude param_env param_slots comp_args tl_body tail_call tl_fb emptycode];
     try reflexivity; unfold ce_lt; rewrite ?He, ?Hl.
   - cg ce ce'.
   - cg ce ce'.
@@ -616,9 +684,90 @@ Proof.
   - cg ce ce'.
   - destruct (lookup_cf f (length args) (ce_env ce')) as [[y|p n|y]|]; try reflexivity.
     destruct args as [|a0 args']; [reflexivity|].
-    rewrite (comp_args_ext (fun a s' p' => comp a (fun_env ce) s' (p' + 2) 0 (S s')) (fun a s' p' => comp a (fun_env ce') s' (p' + 2) 0 (S s'))); [reflexivity|].
+    rewrite (comp_args_ext (fun a s' p' => compg tco a (fun_env ce) None s' (p' + 2) 0 (S s')) (fun a s' p' => compg tco a (fun_env ce') None s' (p' + 2) 0 (S s'))); [reflexivity|].
     eapply Forall_impl; [|exact IHargs]. simpl. intros a Ha s p0. apply Ha; simpl; congruence.
 Qed.
+
+Lemma lookup_cf_cp : forall l f n y, lookup_cf f n l = Some (CP y) -> n = 0.
+Proof.
+  induction l as [|[z [k|q m|k]] r IH]; intros f n y H; simpl in H; try discriminate; eauto.
+  - destruct (N.eqb f z && Nat.eqb m n); [discriminate|eauto].
+  - destruct (Nat.eqb_spec n 0); [auto|]. rewrite andb_false_r in H. eauto.
+Qed.
+
+(* a position that optimizeTailRec treats as a tail position but the theorem does not (tl = Some (pe, None)): if the
+   query compiles there, it compiles to the same code in the ordinary mode *)
+Lemma comp_forbid : forall pe q ce cur pc nv sn r,
+  compg tco q ce (Some (pe, None)) cur pc nv sn = Some r -> compg tco q ce None cur pc nv sn = Some r.
+Proof.
+  intros pe. qind q; intros ce cur pc nv sn r Hc; cbn -[Nat.add Nat.ltb Nat.eqb ce_lt prelude param_env param_slots comp_args tl_body emptycode] in Hc |- *;
+    try exact Hc;
+    try (destruct (emptycode b));
+    repeat match goal with
+    | Hc : context [match compg ?t ?q0 ?ce0 ?tp ?c ?p ?n ?s with _ => _ end] |- _ =>
+        let E := fresh "E" in destruct (compg t q0 ce0 tp c p n s) as [[[? ?] ?]|] eqn:E; [|discriminate Hc];
+        try (match tp with Some _ =>
+               match goal with IH : forall ce cur pc nv sn r, compg _ q0 ce (Some (pe, None)) cur pc nv sn = Some r -> _ |- _ => apply IH in E end end);
+        try rewrite E
+    end; try exact Hc.
+  - (* try *) destruct h as [h|]; simpl in *; [|exact Hc].
+    match type of Hc with context [compg tco h ?ce0 ?tp ?c ?p ?n1 ?s] =>
+      destruct (compg tco h ce0 tp c p n1 s) as [[[? ?] ?]|] eqn:Eh; [|discriminate Hc] end.
+    apply IHh in Eh. rewrite Eh. exact Hc.
+  - (* foreach *) destruct e as [e|]; simpl in *; [|exact Hc].
+    match type of Hc with context [compg tco e ?ce0 ?tp ?c ?p ?n1 ?s] =>
+      destruct (compg tco e ce0 tp c p n1 s) as [[[? ?] ?]|] eqn:Ee; [|discriminate Hc]; apply IHe in Ee; rewrite Ee end. exact Hc.
+  - (* def *) destruct (Nat.ltb cur sn && ce_lt ce sn); [|discriminate Hc].
+    repeat match goal with
+    | Hc : context [match compg ?t ?q0 ?ce0 ?tp ?c ?p ?n ?s with _ => _ end] |- _ =>
+        let E := fresh "E" in destruct (compg t q0 ce0 tp c p n s) as [[[? ?] ?]|] eqn:E; [|discriminate Hc];
+        try (match tp with Some (_, None) => apply IHrest in E end);
+        try rewrite E
+    end. exact Hc.
+  - (* callf *) destruct (lookup_cf f (length args) (ce_env ce)) as [[y|p n|y]|]; try exact Hc.
+    destruct args as [|a0 args']; [|exact Hc]. unfold tail_call in *. destruct (Nat.eqb pe p); [discriminate Hc|exact Hc].
+Qed.
+
+(* a query that emits no code does so in every mode *)
+Lemma comp_empty : forall q, emptycode q = true -> forall ce tp cur pc nv sn, compg tco q ce tp cur pc nv sn = Some ([], nv, sn).
+Proof.
+  induction q; intros H ce tp cur pc nv sn; simpl in H; try discriminate; [reflexivity|].
+  apply andb_true_iff in H. destruct H as [H1 H2]. simpl. rewrite IHq1 by exact H1. simpl. rewrite IHq2 by exact H2. reflexivity.
+Qed.
+
+(* the number of variables does not depend on the mode *)
+Lemma comp_nvars : forall q ce tp cur pc nv sn cq nv' sn', compg tco q ce tp cur pc nv sn = Some (cq, nv', sn') -> nv' = nv + nvars q.
+Proof.
+  qind q; intros ce tp cur pc nv sn cq nv' sn' Hc; simpl in Hc; dcomp;
+    repeat match goal with
+    | IH : forall ce tp cur pc nv sn cq nv' sn', compg tco ?q ce tp cur pc nv sn = Some (cq, nv', sn') -> _,
+      E : compg tco ?q _ _ _ _ _ _ = Some _ |- _ => apply IH in E
+    end;
+    try (inversion Hc; subst; simpl; lia).
+  - (* if *) destruct (is_const1 l0), (is_const1 l1); inversion Hc; subst; simpl; lia.
+  - (* try *) destruct h as [h|]; simpl in *; dcomp; inversion Hc; subst; clear Hc.
+    + apply IHh in Ec0. lia. + lia.
+  - (* array *) destruct (array_fold q); inversion Hc; subst; simpl; lia.
+  - (* foreach *) destruct e as [e|]; simpl in *; dcomp; inversion Hc; subst; clear Hc.
+    + apply IHe in Ec2. lia. + lia.
+  - (* binop *) destruct (Nat.ltb cur sn && ce_lt ce sn); [|discriminate].
+    match type of Hc with context [compg tco b ce ?t ?c ?p ?n ?s] =>
+      destruct (compg tco b ce t c p n s) as [[[cb nb] s1]|] eqn:Eb; [|discriminate] end. cbv iota beta in Hc.
+    match type of Hc with context [compg tco a ce ?t ?c ?p ?n ?s] =>
+      destruct (compg tco a ce t c p n s) as [[[ca na] s2]|] eqn:Ea; [|discriminate] end. cbv iota beta in Hc.
+    inversion Hc; subst. simpl. lia.
+  - (* def *) destruct (Nat.ltb cur sn && ce_lt ce sn); [|discriminate].
+    dcomp. inversion Hc; subst. apply IHrest in Ec0. simpl. lia.
+  - (* callf *) destruct (lookup_cf f (length args) (ce_env ce)) as [[y|p n|y]|] eqn:Ef; try discriminate.
+    + destruct args as [|a0 args']; [destruct (tail_call tp p); [inversion Hc; subst; simpl; lia|discriminate]|].
+      destruct (Nat.ltb cur sn && ce_lt ce sn); [|discriminate].
+      match type of Hc with context [comp_args ?C ?l ?p ?s] => destruct (comp_args C l p s) as [[[cas p'] s2]|] eqn:Ea; [|discriminate] end.
+      inversion Hc; subst. simpl. lia.
+    + apply lookup_cf_cp in Ef. destruct args; [|discriminate Ef]. inversion Hc; subst; simpl; lia.
+Qed.
+End CF.
+Arguments comp_mono {tco} q ce {tp}.
+Arguments comp_ghost {tco} q ce ce' _ _ {tp}.
 
 (* ---- den-level facts ---- *)
 Lemma foldgen_bind : forall (f : jv -> result) ws,
